@@ -129,8 +129,8 @@ func VerifC06UDP() { verifC06UDP(12, 17, 6) }
 
 // VerifC06UDPLong is the thorough variant.
 //
-//verif:harness name=H06c-udp-long tier=thorough bounds="as H06c-udp with 12..20 bytes and 8 stale bytes" reach=decoded,rejected maxpaths=2000000 fanout=70
-func VerifC06UDPLong() { verifC06UDP(12, 20, 8) }
+//verif:harness name=H06c-udp-long tier=thorough bounds="as H06c-udp with 12..19 bytes and 8 stale bytes" reach=decoded,rejected maxpaths=2000000 fanout=70
+func VerifC06UDPLong() { verifC06UDP(12, 19, 8) }
 
 func verifC06UDP(lo, hi, nstale int) {
 	verifPoolMode(1)
@@ -171,8 +171,8 @@ func VerifC06TCP() { verifC06TCP(12, 15, 24) }
 
 // VerifC06TCPLong is the thorough variant.
 //
-//verif:harness name=H06d-tcp-long tier=thorough bounds="as H06d-tcp with 12..20 bytes" reach=decoded,rejected maxpaths=2000000 fanout=70
-func VerifC06TCPLong() { verifC06TCP(12, 20, 28) }
+//verif:harness name=H06d-tcp-long tier=thorough bounds="as H06d-tcp with 12..19 bytes" reach=decoded,rejected maxpaths=2000000 fanout=70
+func VerifC06TCPLong() { verifC06TCP(12, 19, 28) }
 
 func verifC06TCP(lo, hi, nstale int) {
 	verifPoolMode(1)
